@@ -41,6 +41,7 @@ import (
 //   stores  := store ('|' store)* | -
 // ops:
 //   lt.merge <maxVal> <ints (',') per sequence ('_' = empty), sequences separated by '|'>      pkg/losertree on integers
+//       (an element is key*16 + sequence index and `less` compares keys only, so that tie-breaking is observable)
 //       -> <merged ints> closed=<sequence indices in close order>
 //   merge.dedup <frame (';' frame)*>               NewResponseDeduplicator over a fixed stream
 //       -> <frames>
@@ -538,19 +539,14 @@ func populated(c storepb.AggrChunk) int {
 	return n
 }
 
-// oracleMerge checks the C03 property on the collected responses.
-func oracleMerge(c *hlib.Ctx, rq *mergeReq, resps []*storepb.SeriesResponse) {
-	in, sortedInputs, _, _ := delivered(rq)
-	if !sortedInputs {
-		c.Count("oracle:unsorted-input-skipped")
-		return
-	}
-	// the deduplicator identifies a chunk by the hashes of its populated fields: two different chunks under one
-	// key (a hash collision, or equal data under different time ranges) are outside the property (KeyInj)
+// hasKeyCollision: the deduplicator identifies a chunk by the hashes of its populated fields; two different
+// chunks under one key (a hash collision, or equal data under different time ranges) are outside the
+// property (hypothesis KeyInj of the theorems).
+func hasKeyCollision(in []*storepb.Series) bool {
 	keyed := map[string]chunkKey{}
 	for _, s := range in {
 		for _, ch := range s.Chunks {
-			k := ""
+			k := showZLabels(s.Labels) + "|"
 			for i, f := range []*storepb.Chunk{ch.Raw, ch.Count, ch.Max, ch.Min, ch.Sum, ch.Counter} {
 				if f == nil {
 					continue
@@ -562,11 +558,24 @@ func oracleMerge(c *hlib.Ctx, rq *mergeReq, resps []*storepb.SeriesResponse) {
 				k += fmt.Sprintf("%d:%d,", i, h)
 			}
 			if prev, ok := keyed[k]; ok && prev != keyOf(ch) {
-				c.Count("oracle:key-collision-skipped")
-				return
+				return true
 			}
 			keyed[k] = keyOf(ch)
 		}
+	}
+	return false
+}
+
+// oracleMerge checks the C03 property on the collected responses.
+func oracleMerge(c *hlib.Ctx, rq *mergeReq, resps []*storepb.SeriesResponse) {
+	in, sortedInputs, _, _ := delivered(rq)
+	if !sortedInputs {
+		c.Count("oracle:unsorted-input-skipped")
+		return
+	}
+	if hasKeyCollision(in) {
+		c.Count("oracle:key-collision-skipped")
+		return
 	}
 	c.Count("oracle:merge-checked")
 	want := map[string]map[chunkKey]int{} // labels -> chunk -> copies delivered
@@ -698,7 +707,7 @@ func execC03(c *hlib.Ctx, tok []string) string {
 			if a == mx && b == mx {
 				return true
 			}
-			return a < b
+			return a/16 < b/16 // elements are key*16 + sequence index: ties between sequences stay visible
 		}
 		t := losertree.New[uint64, *intSeq](seqs, mx, func(s *intSeq) uint64 { return s.xs[s.i-1] }, less, func(s *intSeq) { closed = append(closed, strconv.Itoa(s.idx)) })
 		var out []string
@@ -710,14 +719,14 @@ func execC03(c *hlib.Ctx, tok []string) string {
 		sortedIn := true
 		for _, s := range seqs {
 			for i := 1; i < len(s.xs); i++ {
-				if s.xs[i-1] > s.xs[i] {
+				if s.xs[i-1]/16 > s.xs[i]/16 {
 					sortedIn = false
 				}
 			}
 		}
 		for t.Next() {
 			v := t.At()
-			if sortedIn && len(out) > 0 && v < prev {
+			if sortedIn && len(out) > 0 && v/16 < prev/16 {
 				c.Violation("losertree-output-unsorted", fmt.Sprintf("%d after %d", v, prev))
 			}
 			prev = v
@@ -1054,6 +1063,9 @@ func genMergeCase(c *hlib.Ctx, failPct int, allowLimit bool) string {
 			}
 		}
 		sort.SliceStable(hs, func(i, j int) bool { return cmpGLabels(hs[i].l, hs[j].l) < 0 })
+		if collisions && len(hs) > 8 {
+			hs = hs[:8] // sort.Slice is an insertion sort up to 12 elements; with colliding keys the order matters
+		}
 		batching := r.Chance(1, 3)
 		nonSeries := 0
 		for i := 0; i < len(hs); {
@@ -1156,14 +1168,14 @@ func genMergeCase(c *hlib.Ctx, failPct int, allowLimit bool) string {
 func genLtMerge(c *hlib.Ctx) string {
 	r := c.R
 	n := r.Range(0, 9)
-	mx := uint64(1000)
+	mx := uint64(100000)
 	var seqs []string
 	sorted := !r.Chance(1, 4)
 	for i := 0; i < n; i++ {
 		k := r.Range(0, 6)
 		var xs []int64
 		for j := 0; j < k; j++ {
-			xs = append(xs, int64(r.Intn(12)))
+			xs = append(xs, int64(r.Intn(12)*16+i))
 		}
 		if sorted {
 			sort.Slice(xs, func(a, b int) bool { return xs[a] < xs[b] })
